@@ -112,7 +112,7 @@ OpOK(op) == IF op \in CtorOps THEN TRUE ELSE AliveS # {}
    are observed.  Free mode: random walk over all operations. *)
 \* two kinds of recipe: "op"  : ctor, ctor, nd drivers on slot 1, target operation on slot 1, two observers;
 \*                        "copy": ctor, ctor, nd drivers on slot 1 (slot 1 may also serve as the const argument of a widening of
-\*                                slot 2; one driver in three goes to slot 2 instead, so that the object assigned INTO has an internal state of its own), slot 2 := slot 1 by assignment / copy / swap, a mutator on the copy, two observers
+\*                                slot 2; in the forced copy-recipe plans one driver in three goes to slot 2 instead, so that the object assigned INTO has an internal state of its own), slot 2 := slot 1 by assignment / copy / swap, a mutator on the copy, two observers
 \*                        "chain" (C08, selected by the pseudo-operation "chain" in OpSet): an ascending chain  x_0, x_{k+1} = W(x_k grown, x_k):
 \*                                ctor on slot 1, then 2 + nd times [slot 2 := copy of slot 1; grow slot 1; widen slot 1 with slot 2]
 \* powerset "copy" recipes have one more step: the copy first gets a further disjunct (drawn around the ORIGINAL's anchor, so that it often
@@ -162,7 +162,7 @@ Args ==
   /\ phase = "args" /\ phase' = "op" /\ cur' = "none"
   \* locality: two calls in three go to the slot used last, so that sequences of calls build up state on one object
   /\ UNCHANGED <<nd, rk>>
-  /\ \E s0 \in {IF Recipe THEN (IF Len(prog) = 1 \/ AfterCopy \/ (rk = "copy" /\ cur \in {"H79_widening", "assign", "copy_from", "swap"}) \/ (rk = "copy" /\ Len(prog) >= 2 /\ Len(prog) < 2 + nd /\ RE(1..3) = 1) THEN (IF rk = "chain" /\ Len(prog) = 1 THEN 1 ELSE 2) ELSE 1) ELSE IF AliveS = {} THEN focus ELSE IF Alive(focus) /\ RE(1..3) <= 2 THEN focus ELSE RE(AliveS)} : focus' = s0 /\
+  /\ \E s0 \in {IF Recipe THEN (IF Len(prog) = 1 \/ AfterCopy \/ (rk = "copy" /\ cur \in {"H79_widening", "assign", "copy_from", "swap"}) \/ (rk = "copy" /\ "copy-recipe" \in OpSet /\ Len(prog) >= 2 /\ Len(prog) < 2 + nd /\ RE(1..3) = 1) THEN (IF rk = "chain" /\ Len(prog) = 1 THEN 1 ELSE 2) ELSE 1) ELSE IF AliveS = {} THEN focus ELSE IF Alive(focus) /\ RE(1..3) <= 2 THEN focus ELSE RE(AliveS)} : focus' = s0 /\
      \E ill \in {IF Recipe /\ Len(prog) < 2 + nd THEN FALSE ELSE Ill(Len(prog))} :
      \/ /\ cur \in CtorOps
         /\ \E s \in {IF Recipe \/ RE(1..2) = 1 THEN s0 ELSE RE(Slots)} :
